@@ -44,6 +44,10 @@ func init() {
 		"(reflect.Value).Len":           ext۰reflect۰Value۰Len,
 		"(reflect.Value).MapIndex":      ext۰reflect۰Value۰MapIndex,
 		"(reflect.Value).MapKeys":       ext۰reflect۰Value۰MapKeys,
+		"(reflect.Value).MapRange":      ext۰reflect۰Value۰MapRange,
+		"(*reflect.MapIter).Next":       ext۰reflect۰MapIter۰Next,
+		"(*reflect.MapIter).Key":        ext۰reflect۰MapIter۰Key,
+		"(*reflect.MapIter).Value":      ext۰reflect۰MapIter۰Value,
 		"(reflect.Value).SetMapIndex":   ext۰reflect۰Value۰SetMapIndex,
 		"(reflect.Value).NumField":      ext۰reflect۰Value۰NumField,
 		"(reflect.Value).NumMethod":     ext۰reflect۰Value۰NumMethod,
